@@ -218,6 +218,21 @@ fn observe_run(run: &Value) -> Value {
         }
     }
     o["repeat"] = json!(fps);
+    // generation in fresh processes (fresh hash seeds per process)
+    let fresh = run["fresh"].as_u64().unwrap_or(0);
+    let mut fr = vec![];
+    for _ in 0..fresh {
+        fr.push(crate::run_gen::once_in_fresh_process(run));
+    }
+    o["fresh"] = json!(fr);
+    // settings validation, repeated with freshly built settings; compared as sets by the judge
+    let vrep = run["validate"].as_u64().unwrap_or(0);
+    if vrep > 0 {
+        let vcase = json!({"reg": run["reg"], "settings": run["settings"], "queries": [], "repeat": vrep});
+        o["validation"] = crate::run_misc::validate_case(&vcase)["runs"].clone();
+    } else {
+        o["validation"] = json!([]);
+    }
     if let Some(pairs) = run["teq"].as_array() {
         let mut res = vec![];
         for p in pairs {
@@ -275,6 +290,36 @@ fn observe_run(run: &Value) -> Value {
         }
     }
     o
+}
+
+/// `vh once`: one generation in this (fresh) process; the run arrives on stdin.
+pub fn once_main() {
+    let mut inp = String::new();
+    use std::io::Read;
+    std::io::stdin().read_to_string(&mut inp).expect("stdin");
+    let run: Value = serde_json::from_str(&inp).expect("run json");
+    let types = reg::from_a1(&run["reg"]).expect("registry");
+    let st = settings::build(&run["settings"]).expect("settings");
+    let g = observe_gen(&types, &st);
+    println!("{}", serde_json::to_string(&json!({"res": g["res"], "fp": g["fp"], "msg": g["msg"]})).unwrap());
+}
+
+pub fn once_in_fresh_process(run: &Value) -> Value {
+    use std::io::Write;
+    use std::process::{Command, Stdio};
+    let exe = std::env::current_exe().expect("exe");
+    let child = Command::new(exe).arg("once").stdin(Stdio::piped()).stdout(Stdio::piped()).stderr(Stdio::null()).spawn();
+    let Ok(mut child) = child else { return json!({"res":"spawn-failed","fp":"","msg":""}) };
+    {
+        let mut mini = run.clone();
+        mini["fresh"] = json!(0);
+        mini["repeat"] = json!(0);
+        let _ = child.stdin.take().unwrap().write_all(serde_json::to_string(&mini).unwrap().as_bytes());
+    }
+    match child.wait_with_output() {
+        Ok(out) if out.status.success() => serde_json::from_slice::<Value>(&out.stdout).unwrap_or(json!({"res":"bad-output","fp":"","msg":""})),
+        _ => json!({"res":"abort","fp":"","msg":""}),
+    }
 }
 
 pub fn gen_case(case: &Value) -> Value {
